@@ -20,6 +20,23 @@ def short(q: str) -> str:
 
 
 # --------------------------------------------------------------------------- seen-set idiom
+def functions_mentioning(ck: Check, needle: str) -> List[FuncInfo]:
+    """recorded (non-transparent) functions whose source mentions `needle`, directly or through the name of a helper that was
+    introduced after the rule tables were written (such helpers are analysed as part of their callers, never on their own)."""
+    w = ck.walker
+    fns = list(ck.repo.all_functions())
+    srcs = {fi.qualname: ck.repo.src(fi.node) for fi in fns}
+    needles = {needle}
+    changed = True
+    while changed:
+        changed = False
+        for fi in fns:
+            if w.transparent(fi.qualname) and fi.name not in needles and any(n in srcs[fi.qualname] for n in needles):
+                needles.add(fi.name)
+                changed = True
+    return [fi for fi in fns if not w.transparent(fi.qualname) and any(n in srcs[fi.qualname] for n in needles)]
+
+
 def require_seen_set(ck: Check, rule: str, summ: Summary, spec: Spec, key_expr: str, what: str,
                      set_scope_loops: int = 0) -> bool:
     """`S = set()` created outside the innermost `len(spec.loops) - set_scope_loops` loops; for every element:
